@@ -33,7 +33,10 @@ RULE = ("Documents are rendered from abstract trees; the oracle is the tree that
         "background, feature background of each type, rule inheriting, rule with own / own empty background, second "
         "scenario, as background steps, parse_steps, parse_scenario). (3) On every 16th (thorough: 8th) shape + 2 rich documents: "
         "every single layout deviation (indent 0/4/tab, tags on two lines, trailing comment on tag lines, no final "
-        "newline, a blank / whitespace-only / comment / indented comment line inserted at EVERY position outside "
+        "newline, 1-3 trailing blanks / a tab / NBSP after every kind of line (tag, keyword, description, step, row, "
+        "doc-string opening and closing delimiter lines, all), line ends LF / CRLF / lone CR with and without final "
+        "newline through parse_feature and parse_file, one stray CR / CRLF at every line of an LF document, a UTF-8 "
+        "byte order mark through parse_file, a blank / whitespace-only / comment / indented comment line inserted at EVERY position outside "
         "doc-strings); thorough: all pairs indent x insertion and all pairs of insertion positions. A difference that "
         "the un-deviated rendering shows too is reported as a model difference, not as a layout one. (4) ALL 80 "
         "languages x EVERY alias of EVERY keyword (taken from etc/gherkin/gherkin-languages.json, not from i18n.py) "
@@ -56,6 +59,10 @@ RULE = ("Documents are rendered from abstract trees; the oracle is the tree that
         "closing delimiter column x last step / followed by a step x 6 contexts (scenario, background, rule "
         "background, outline template, parse_steps, parse_scenario) x indent styles; such arguments also rotate "
         "through the shapes of (1) and the layouts of (3). "
+        "(5d) steps whose text ends with ':' x argument none / either doc-string / table / both x 8 contexts incl. "
+        "outlines WITHOUT steps (1-2 Examples blocks), with the environment switch "
+        "BEHAVE_STRIP_STEPS_WITH_TRAILING_COLON off and on (on: a private copy of behave/parser.py executed with the "
+        "variable set; reference: the colon is dropped iff an argument follows), and the shape sweep with the switch on. "
         "(6) ModelDescriptor.describe_table / describe_docstring re-parsed. (7) E2: breadth-first search over "
         "line histories of a 20-kind well-formed-line alphabet on the real Parser (canonical abstraction of C05) for "
         "parse_feature and parse_steps, plus all sequences <= 3 (quick) / <= 4 (thorough) lines: whenever the real "
@@ -98,7 +105,14 @@ ASSUMPTIONS = [
     "accepted (model or error class + line of a fresh Parser() and of a fresh Parser(language=<carried language>)); "
     "steps / scenario / rule fragments are compared with a fresh Parser carrying the same language (that is how "
     "execute_steps() gets the feature's language); everything else a parser keeps between parses is compared strictly",
-    "BEHAVE_STRIP_STEPS_WITH_TRAILING_COLON is unset (./check scrubs BEHAVE_*); step names do not end in ':'",
+    "BEHAVE_STRIP_STEPS_WITH_TRAILING_COLON is unset in the process (./check scrubs BEHAVE_*); the switch is exercised "
+    "in a private copy of behave/parser.py executed with the variable set; reference: with the switch on a step whose "
+    "text ends with ':' and that carries a doc-string or table loses that one colon, nothing else changes",
+    "physical encoding: trailing blanks are U+0020, TAB and NBSP (str.strip() treats NBSP as blank) after every kind of "
+    "line except doc-string content lines (the parser strips trailing whitespace of content lines: statement silent); "
+    "line ends are LF, CRLF, lone CR and one stray CR / CRLF in an LF document (a lone CR directly before an empty "
+    "line is left out: CR + LF would read as one CRLF); FF / VT / NEL / LS / PS inside a line (also line breaks for "
+    "str.splitlines) are not varied; a UTF-8 byte order mark is varied through parse_file",
 ]
 
 SCRATCH = "/dev/shm"
@@ -113,9 +127,11 @@ def init_worker():
 
 
 # ================================================================ generic compare
-def _parse(entry, text, language=None, via="text"):
-    """-> ("ok", extracted) | ("exc", typename, site, repr)"""
+def _parse(entry, text, language=None, via="text", mod=None, bom=False):
+    """-> ("ok", extracted) | ("exc", typename, site, repr);  mod: a private copy of behave.parser (default: the
+    real module); via="file": the text goes to disk as UTF-8 bytes (bom=True: with a byte order mark) -> parse_file"""
     tmp = None
+    bp = mod or globals()["bp"]
     try:
         try:
             if entry == "feature":
@@ -123,7 +139,7 @@ def _parse(entry, text, language=None, via="text"):
                     tmp = tempfile.mkdtemp(prefix="c04-", dir=SCRATCH)
                     path = os.path.join(tmp, "doc.feature")
                     with open(path, "wb") as f:
-                        f.write(text.encode("utf-8"))
+                        f.write((b"\xef\xbb\xbf" if bom else b"") + text.encode("utf-8"))
                     res = bp.parse_file(path, language=language)
                 else:
                     res = bp.parse_feature(text, language=language)
@@ -292,6 +308,9 @@ def check_kwseq(case):
 
 
 # ================================================================ (3) layouts
+TRAILS = (u" ", u"   ", u"\t", u"\xa0", u" \t ")        # str.strip() (what the parser uses) treats NBSP as blank
+TRAIL_KINDS = (("tag",), ("feature",), ("rule",), ("background",), ("scenario",), ("outline",), ("examples",), ("desc",),
+               ("step",), ("row",), ("doc_open",), ("doc_close",), "all")
 EXTRAS = (u"", u"   ", u"# inserted comment", u"        # indented comment: Given not a step", u"#@no-tag | no row")
 
 
@@ -308,6 +327,26 @@ def _layouts(doc, thorough):
     yield "tags:trailing-comment", {"tagcomment": True}
     yield "tags:two-lines+comment", {"taglines": 2, "tagcomment": True}
     yield "no-final-newline", {"final_newline": False}
+    # physical encoding of the document: trailing blanks after every kind of line, line endings, byte order mark
+    for kinds in TRAIL_KINDS:
+        for ws in TRAILS:
+            yield "trail:" + (kinds if kinds == "all" else kinds[0]), {"trail": (ws, kinds)}
+    base_lines = gr.render(doc)["lines"]
+    nlines = len(base_lines)
+    for eol, ename in ((u"\r\n", "crlf"), (u"\r", "cr"), (u"\n", "lf")):
+        for final in (True, False):
+            for via in ("text", "file"):
+                if not (ename == "lf" and via == "text"):
+                    yield "eol:" + ename, {"eol": eol, "final_newline": final, "_via": via}
+    for i in range(nlines):
+        for eol, ename in ((u"\r", "stray-cr"), (u"\r\n", "stray-crlf")):
+            if eol == u"\r" and i + 1 < nlines and base_lines[i + 1] == u"":
+                continue        # CR + empty line + LF would read as one CRLF: not the document that was rendered
+            yield "eol:" + ename, {"eol_at": {i: eol}}
+            if i % 3 == 0 or thorough:
+                yield "eol:" + ename, {"eol_at": {i: eol}, "_via": "file", "final_newline": bool(i % 2)}
+    yield "bom", {"_via": "file", "_bom": True}
+    yield "bom", {"_via": "file", "_bom": True, "eol": u"\r\n"}
     pos = positions(None)
     for p in pos:
         for i, x in enumerate(EXTRAS):
@@ -345,14 +384,22 @@ def check_layouts(case):
     todo = itertools.chain([("none", None)], todo)
     for name, layout in todo:
         r = gr.render(doc, layout)
-        got = _parse("feature", r["text"])
+        got = _parse("feature", r["text"], via=(layout or {}).get("_via", "text"), bom=(layout or {}).get("_bom", False))
         obs.append(digest(got))
         counts[("layout", name)] += 1
         nts.add(digest(r["text"]))
         if layout is None:
             found = base_v
         else:
-            found = [x for x in compare("layout", "feature", r, got, {"deviation": name}) if x[0]["clause"] not in base_clauses]
+            via_file = (layout or {}).get("_via") == "file"
+            found = [x for x in compare("layout", "parse_file" if via_file else "feature", r, got, {"deviation": name})
+                     if x[0]["clause"] not in base_clauses]
+            if name.startswith(("eol:", "trail:", "bom")):
+                # physical encoding of the same document: where the damage shows depends on the position of the
+                # deviation, the defect does not -> one descriptor per deviation kind
+                for d, _ in found:
+                    if d["clause"] != "raises":
+                        d["clause"] = "model-differs"
         for d, msg in found:
             key = tuple(sorted(d.items()))
             if key not in viol:
@@ -623,7 +670,7 @@ DOC_TEXTS = ((u"plain line",), (u"first", u"  indented more", u"", u"    much mo
              (u"{name} {} %s", u"@tag # comment"))
 
 
-def docclose_doc(context, quote, close, text_idx, follow):
+def docclose_doc(context, quote, close, text_idx, follow, trail=None):
     """-> (entry, abstract document or rendered text) | None: a doc-string whose closing delimiter stands at column
     `close` relative to the opening one, as argument of the last step / followed by a step / by a step with a
     table / by the next scenario"""
@@ -639,10 +686,11 @@ def docclose_doc(context, quote, close, text_idx, follow):
     if follow == "scenario":
         nxt = [{"k": "scenario", "tags": [u"t1"], "name": u"next", "desc": [], "steps": [("given", S[0], None)]}]
     scen = {"k": "scenario", "tags": [], "name": u"n1", "desc": [], "steps": steps}
+    lay = {"trail": (trail, ("doc_open", "doc_close", "step", "row"))} if trail else None
     if context == "parse_steps":
-        return ("steps", gr.render_steps(steps)) if follow != "scenario" else None
+        return ("steps", gr.render_steps(steps, layout=lay)) if follow != "scenario" else None
     if context == "parse_scenario":
-        return ("scenario", gr.render_scenario(scen)) if follow != "scenario" else None
+        return ("scenario", gr.render_scenario(scen, layout=lay)) if follow != "scenario" else None
     doc = {"lang": "en", "tags": [], "name": u"n1", "desc": [], "bg": None, "items": [scen] + nxt}
     plain = {"k": "scenario", "tags": [], "name": u"n1", "desc": [], "steps": [("then", S[0], None)]}
     if context == "background":
@@ -660,13 +708,16 @@ def docclose_doc(context, quote, close, text_idx, follow):
 
 
 def check_docclose(case):
-    context, quote, close, text_idx, follow, indent = case
-    made = docclose_doc(context, quote, close, text_idx, follow)
+    context, quote, close, text_idx, follow, indent, trail = case
+    made = docclose_doc(context, quote, close, text_idx, follow, trail)
     if made is None or (made[0] != "feature" and indent != "2"):
         return {"n": 0, "out": "not-applicable"}
     entry, r = made
     if entry == "feature":
-        r = gr.render(r, {"indent": indent})
+        layout = {"indent": indent}
+        if trail:
+            layout["trail"] = (trail, ("doc_open", "doc_close", "step", "row"))
+        r = gr.render(r, layout)
     got = _parse(entry, r["text"])
     v = compare("model", entry, r, got, {})
     v = [(d, "[doc-string closing delimiter at %r, %s, followed by %s] %s" % (close, context, follow, m)) for d, m in v]
@@ -680,7 +731,10 @@ def docclose_cases(thorough):
                 for close in DOC_CLOSE:
                     for ti in range(len(DOC_TEXTS)):
                         for indent in (("2", "0", "4", "tab") if (thorough or ti < 2) else ("2",)):
-                            yield (context, quote, close, ti, follow, indent)
+                            yield (context, quote, close, ti, follow, indent, None)
+                        # trailing blanks after the delimiters (and the step / row lines around them)
+                        for trail in (TRAILS if (thorough or close in (0, 1)) else TRAILS[:1]):
+                            yield (context, quote, close, ti, follow, "2", trail)
 
 
 # ================================================================ (5c) doc-string AND table on one step
@@ -742,6 +796,92 @@ def both_cases(thorough):
                                 for follow in (False, True):
                                     for indent in (("2", "0", "4", "tab") if thorough else ("2", "tab")):
                                         yield (context, order, shift, quote, ti, tab, close, follow, indent)
+
+
+# ================================================================ (5d) steps ending with ':' / outlines without steps
+# with and without the documented switch BEHAVE_STRIP_STEPS_WITH_TRAILING_COLON=yes (read when behave.parser is
+# imported): ON = a private copy of behave/parser.py executed with the variable set.  Documented effect: a step whose
+# text ends with ':' and that carries a doc-string or table loses that colon; nothing else changes.
+COLON_NAMES = (u"1st step:", u"2 things <x>:", u"3rd step, no colon", u"4: colon inside only")
+COLON_ARGS = ("none", "dq", "sq", "table", "text+table", "table+text")
+COLON_CONTEXTS = ("scenario", "background", "rule-scenario", "outline", "parse_steps", "parse_scenario",
+                  "outline-without-steps", "rule-outline-without-steps")
+_ON_MOD = []
+
+
+def _switch_on_module():
+    if not _ON_MOD:
+        _ON_MOD.append(ps.fresh_parser_module(ps.STRIP_COLON_ENV))
+    return _ON_MOD[0]
+
+
+def _colon_arg(kind):
+    t = ("table", [u"h1", u"h2"], [[u"a", u""]])
+    if kind == "none":
+        return None
+    if kind in ("dq", "sq"):
+        return ("text", DQ if kind == "dq" else SQ, [u"first", u"  indented more:", u"last:"])
+    if kind == "table":
+        return t
+    return ("both", "text" if kind == "text+table" else "table", ("text", DQ, [u"plain line:"]), t)
+
+
+def check_colon(case):
+    mode, context, ni, argkind, follow = case
+    on = mode == "on"
+    S = gr.STEP_NAMES
+    steps = [("given", S[0], None), ("when", COLON_NAMES[ni], _colon_arg(argkind))]
+    if follow:
+        steps.append(("then", COLON_NAMES[(ni + 1) % len(COLON_NAMES)], _colon_arg("table") if follow == 2 else None))
+    layout = {"strip_colon": on}
+    scen = {"k": "scenario", "tags": [], "name": u"name:", "desc": [u"(a) description:"], "steps": steps}
+    ex = [{"tags": [u"e1"], "name": u"E:", "table": ([u"x"], [[u"1"]])}, {"tags": [], "name": u"", "table": ([u"x", u"y"], [])}]
+    plain = {"k": "scenario", "tags": [], "name": u"n1", "desc": [], "steps": [("then", S[0], None)]}
+    doc = {"lang": "en", "tags": [], "name": u"F:", "desc": [], "bg": None, "items": [scen]}
+    if context == "parse_steps":
+        entry, r = "steps", gr.render_steps(steps, layout=layout)
+    elif context == "parse_scenario":
+        entry, r = "scenario", gr.render_scenario(scen, layout=layout)
+    else:
+        entry = "feature"
+        if context == "background":
+            doc["bg"] = {"name": u"", "desc": [], "steps": steps}
+            doc["items"] = [plain]
+        elif context == "rule-scenario":
+            doc["items"] = [{"k": "rule", "tags": [], "name": u"R:", "desc": [], "bg": None, "items": [scen, plain]}]
+        elif context == "outline":
+            doc["items"] = [{"k": "outline", "tags": [], "name": u"O <x>:", "desc": [], "steps": steps, "examples": ex}, plain]
+        elif context == "outline-without-steps":
+            doc["items"] = [{"k": "outline", "tags": [u"o1"], "name": u"O", "desc": [], "steps": [], "examples": ex[:1 + ni % 2]},
+                            scen]
+        elif context == "rule-outline-without-steps":
+            doc["items"] = [{"k": "rule", "tags": [], "name": u"R", "desc": [], "bg": None,
+                             "items": [{"k": "outline", "tags": [], "name": u"O", "desc": [], "steps": [], "examples": ex[ni % 2:]}]}]
+        r = gr.render(doc, layout)
+    got = _parse(entry, r["text"], mod=_switch_on_module() if on else None)
+    extra = {"switch": "strip-colon"} if on else {}
+    v = compare("model", entry, r, got, extra)
+    if on:
+        v = [(d, "[behave.parser executed with BEHAVE_STRIP_STEPS_WITH_TRAILING_COLON=yes] " + m) for d, m in v]
+    return {"v": v, "nt": (mode, digest(r["text"])), "out": ("colon", mode, context, argkind), "dg": got}
+
+
+def check_shape_on(case):
+    """the shape sweep with the switch ON (no step name ends with ':' there: the model must be the same)"""
+    shape, seed = case
+    r = gr.render(gr.decorate(shape, seed=seed), {"strip_colon": True})
+    got = _parse("feature", r["text"], mod=_switch_on_module())
+    v = compare("model", "feature", r, got, {"switch": "strip-colon"})
+    return {"v": v, "nt": ("on", digest(r["text"])), "out": ("shape-on",) + _outkey(r), "dg": got}
+
+
+def colon_cases():
+    for mode in ("off", "on"):
+        for context in COLON_CONTEXTS:
+            for ni in range(len(COLON_NAMES)):
+                for argkind in COLON_ARGS:
+                    for follow in (0, 1, 2):
+                        yield (mode, context, ni, argkind, follow)
 
 
 # ================================================================ (6) ModelDescriptor round trip
@@ -1286,23 +1426,7 @@ def reuse_cases(thorough):
 # of language L2 must give the same model whether it is the first text the process parses or comes after documents
 # of another language L1.  "Fresh process-state" = a private, freshly executed copy of behave/parser.py that is not
 # registered in sys.modules (compiled once per worker), so that the result never depends on what the worker did before.
-_PM_CODE = {}
-
-
-def fresh_parser_module():
-    import types
-    import behave.parser as real
-    path = real.__file__
-    if path.endswith(("c", "o")):
-        path = path[:-1]
-    if path not in _PM_CODE:
-        with open(path, "rb") as f:
-            _PM_CODE[path] = compile(f.read(), path, "exec")
-    mod = types.ModuleType("behave.parser")
-    mod.__package__ = "behave"
-    mod.__file__ = path
-    exec(_PM_CODE[path], mod.__dict__)
-    return mod
+fresh_parser_module = ps.fresh_parser_module
 
 
 def _pm_parse(mod, text):
@@ -1470,6 +1594,9 @@ def run(ctx):
     ctx.sweep(check_entry, entry_cases(thorough), chunk=32, name="parse_steps/scenario/rule/tags")
     ctx.sweep(check_docclose, docclose_cases(thorough), chunk=64, name="doc-string delimiter layouts")
     ctx.sweep(check_both, both_cases(thorough), chunk=64, name="doc-string and table on one step")
+    ctx.sweep(check_colon, colon_cases(), chunk=32, name="steps ending with ':' / outlines without steps, switch off and on")
+    ctx.sweep(check_shape_on, ((sh, i * 11 + 3) for i, sh in enumerate(gr.shapes(4 if thorough else 3))), chunk=32,
+              name="shapes with BEHAVE_STRIP_STEPS_WITH_TRAILING_COLON=yes")
     # (6)
     ctx.sweep(check_roundtrip, roundtrip_cases(), chunk=8, name="ModelDescriptor round trip")
     # (7)
